@@ -4,7 +4,7 @@
    repaired by 9676b42 and c59c73f).  `now` is the value of _mi_clock_now(); cfg are the option values. *)
 From Coq Require Import NArith ZArith List Bool.
 From MiV Require Import Gen.Consts Gen.OsConsts Model.Arith Model.Os Model.Mask Model.MaskWords Model.Purge
-  Proofs.OsProofs Proofs.MaskProofs Proofs.MaskWordsProofs Proofs.PurgeProofs.
+  Proofs.OsProofs Proofs.MaskProofs Proofs.MaskWordsProofs Proofs.PurgeProofs Proofs.PurgePasses.
 Import ListNotations.
 Local Open Scope N_scope.
 
@@ -190,6 +190,20 @@ Theorem C18_expiry_fields_consistent : forall cfg oracle h st,
   times_nonneg h = true -> expiry_consistent st -> expiry_consistent (prun cfg oracle st h).
 Proof. exact expiry_fields_consistent. Qed.
 Print Assumptions C18_expiry_fields_consistent.
+
+(* repeated passes: from a state with consistent expiry fields, non-forced collects one arena purge delay apart, the first
+   one not before any pending expiry, leave no arena that can be purged with a pending expiry: k = 1 + the number of such
+   arenas passes suffice although every pass stops after max_purge_count = 2 purging arenas (the pass re-arms the global
+   expiry to now + delay, the time of the next pass).  The clock value t0 is not negative: _mi_clock_now() is the
+   millisecond count of a monotonic clock; for a negative clock the statement is false in the model (Proofs/PurgePasses.v,
+   arena_eventually_purged_any_clock_refuted: a pass at now = -delay re-arms the global expiry to 0 = "not armed") *)
+Theorem C18_arena_eventually_purged : forall cfg oracle st,
+  (0 < arena_purge_delay cfg)%Z -> expiry_consistent st ->
+  exists k, forall t0, (0 <= t0)%Z -> (forall a, In a (p_arenas st) -> (a_expire a <= t0)%Z) -> (p_g st <= t0)%Z ->
+    let h := map (fun i => (PCollect false, (t0 + Z.of_nat i * arena_purge_delay cfg)%Z)) (seq 0 k) in
+    forall a', In a' (p_arenas (prun cfg oracle st h)) -> a_pinned a' = false -> a_expire a' = 0%Z.
+Proof. exact arena_eventually_purged. Qed.
+Print Assumptions C18_arena_eventually_purged.
 
 (* ---------------------------------------------------------------- non-vacuity / regression scenarios *)
 (* the two histories that defeated the code before repair c59c73f (two arenas; one arena with a forced collect):
